@@ -81,6 +81,18 @@ CHECKS = {
             "For all nine client functions the Abort arm of the reply match never returns Ok, never continues the loop, and its error is "
             "built from the packet's `error` byte; the three documented translations sit on the edge of exactly their code. Covers all 256 "
             "codes because no other code is inspected.", TB),
+    "C09": ("other", "5.9",
+            "path-sensitive product analysis (error flag x ghost failure bit x connection slot) of the retry coroutine; dominance chain in connect; who-may-call",
+            "Reset on failure and keep on success are decided over all paths of into_stream_with_retry in product with the code's own "
+            "error flag; reconnect happens only when the slot is empty and only connect's Ok value is stored; in connect every path to "
+            "Ok passes registration (configured password/currency, items `?`-checked), system info and the equal edge of the "
+            "case-insensitive serial comparison; Sequence::into_stream is called nowhere else; the slot is private.", TB),
+    "C10": ("other", "5.10",
+            "await-type analysis (generic argument of IntoFuture::into_future) + budget provenance + interval discharge of config arithmetic",
+            "Every await point of the client is classified; raw transport awaits are accepted only inside a function whose every call "
+            "is the direct argument of tokio::time::timeout; retry streams derive from take(n>0); timeouts are positive; arithmetic on "
+            "configuration values cannot overflow. All 29 await points, both budgets, every Overflow site with config operands.",
+            "Wall-clock values and tokio's timer are trusted; 'finite' not 'how long'. " + TB),
 }
 
 NOT_YET = "check not yet built in this commit (under construction, see DESIGN.md section 10)"
